@@ -34,6 +34,7 @@ func genCase(t *rapid.T) Case {
 			}
 		}
 	}
+	c.Other = c.Extended && rapid.IntRange(0, 2).Draw(t, "other-portal") == 0
 	return c
 }
 
